@@ -11,7 +11,9 @@
    pacer), an input of the model -- and delivery outcomes ACKED / LOST of the frames written (a RETIRE outcome only
    for a frame really outstanding -- premise from C08).  The outcome type of the model has no "exception escaped" case: every
    operation returns Ok, a connection error (close), Drop or Ignored -- the tie checks that against the code. *)
+From AQ Require Import lib.Base gen.C13Consts gen.C13Writers model.Builder model.Writers proofs.WritersBase proofs.WritersFrames.
 From AQ Require Import lib.Base gen.C18Consts model.Cid proofs.CidP.
+From AQ Require Import model.CidSend proofs.CidSendP proofs.CidBounds.
 
 (* dcid_not_retired: unless the connection is closing, the current destination ID and every spare one are at or
    above the largest retire_prior_to processed, so the next packet written is addressed to such an ID ... *)
@@ -141,3 +143,182 @@ Theorem retire_never_sent_is_error_thm : forall s q d h, closed s = None -> pkt 
   fst (recv_retire s q) = OQErr E_PROTOCOL_VIOLATION /\ hosts (snd (recv_retire s q)) = hosts s.
 Proof. exact retire_never_sent_is_error. Qed.
 Print Assumptions retire_never_sent_is_error_thm.
+
+(* ====================================================================================================================
+   d18 -- the builder budget is no longer an input: it is DERIVED from the packet-builder / frame-writer models of C13
+   (model/Builder.v, model/Writers.v, gen/C13Writers.v).  model/CidSend.v: [room bs] = min(remaining_buffer_space,
+   remaining_flight_space) of the builder state bs in which the CID loops of _write_application start; [cid_budget] = the
+   number of NEW_CONNECTION_ID (declared capacity 54, real size 20 + len(cid) + varint sizes) and then
+   RETIRE_CONNECTION_ID (capacity 9, real size 1 + varint) frames start_frame() accepts; [w_cid] = the two loops as the
+   writer model runs them; [send_built bs cl s] = Cid.send s (budget_of bs cl s); [OI c bs] (proofs/WritersBase.v) = bs is a
+   state of the builder model inside an open packet (the invariant the writer model maintains). *)
+
+(* cid_budget_from_builder: for EVERY open-packet builder state and EVERY connection-ID state the loops of the writer
+   model write exactly the frames of Cid.send with the computed budget (same sequence numbers, same order, NEW_CONNECTION_ID
+   before RETIRE_CONNECTION_ID: the op trace is given literally), stop with QuicPacketBuilderStop iff the budget does not
+   cover what is owed -- the refused start_frame is the last op --, and leave the room the budget function predicts. *)
+Theorem cid_budget_from_builder : forall c (bs : Builder.st) cl (s : st),
+  OI c bs -> 0 <= cl <= C13Writers.CONNECTION_ID_MAX_SIZE -> Forall vok (unsent (hosts s)) -> Forall vok (pend s) ->
+  let b := budget_of bs cl s in
+  let r := fst (send s b) in
+  exists bs',
+    w_cid c bs cl s = (if b <? owed s then OStop else ODone, bs',
+                       flat_map (ncid_ops cl) (snd (fst r)) ++ flat_map ret_ops (snd r) ++
+                       (if b <? owed s then [refused_op s b] else [])) /\
+    OI c bs' /\ room bs' = cid_room_after (room bs) cl (unsent (hosts s)) (pend s) /\ 0 <= b <= owed s.
+Proof. exact cid_budget_from_builder_l. Qed.
+Print Assumptions cid_budget_from_builder.
+
+(* the same inside a whole packet of _write_application (Writers.w_app_iter): after the frames that precede the loops
+   (ACK, PATH_CHALLENGE, HANDSHAKE_DONE, PATH_RESPONSE; builder state s1) the packet carries exactly Cid.send's frames for
+   the budget computed from s1; a refusal ends the pass there, otherwise the rest of the packet follows. *)
+Theorem app_packet_cid_frames : forall c (s0 : Builder.st) d cl (cs : st) (s1 : Builder.st) tr0,
+  ai_new_cids d = cid_news_in cl cs -> ai_retire d = pend cs ->
+  0 <= cl <= C13Writers.CONNECTION_ID_MAX_SIZE -> Forall vok (unsent (hosts cs)) -> Forall vok (pend cs) ->
+  w_cid_prefix c s0 d = (ODone, s1, tr0) -> OI c s1 ->
+  let b := budget_of s1 cl cs in
+  let cidtr := flat_map (ncid_ops cl) (snd (fst (fst (send cs b)))) ++ flat_map ret_ops (snd (fst (send cs b))) in
+  exists s2, OI c s2 /\
+    w_app_iter c s0 d =
+      if b <? owed cs then (OStop, s2, tr0 ++ cidtr ++ [refused_op cs b])
+      else let '(o3, s3, tr3) := w_cid_suffix c s2 d in (o3, s3, tr0 ++ cidtr ++ tr3).
+Proof. exact app_packet_cid_frames_l. Qed.
+Print Assumptions app_packet_cid_frames.
+
+(* the budget in closed form, from below: floor(room / 54) frames are accepted whatever the mix (or everything owed) ... *)
+Theorem cid_budget_at_least : forall rm cl news rets, 0 <= cl <= C13Writers.CONNECTION_ID_MAX_SIZE ->
+  Z.min (Zlen news + Zlen rets) (rm / W_new_connection_id_frame_0_cap) <= cid_budget rm cl news rets.
+Proof. exact cid_budget_lower. Qed.
+Print Assumptions cid_budget_at_least.
+
+(* ... exactly, when every owed sequence number is below 64 (one-byte varints; NEW_CONNECTION_ID frames then take
+   20 + len(cid) bytes, RETIRE_CONNECTION_ID frames 2): n1 = min(#new, (room - 54) / (20 + len(cid)) + 1) frames of the first
+   loop and, if that is all of them, min(#retire, (room' - 9) / 2 + 1) of the second ... *)
+Theorem cid_budget_closed_form : forall rm cl news rets, 0 <= cl <= C13Writers.CONNECTION_ID_MAX_SIZE ->
+  Forall (fun q => 0 <= q < 64) news -> Forall (fun q => 0 <= q < 64) rets ->
+  let n1 := Z.min (Zlen news) (if rm <? 54 then 0 else (rm - 54) / (20 + cl) + 1) in
+  let r1 := rm - (20 + cl) * n1 in
+  cid_budget rm cl news rets =
+    if n1 <? Zlen news then n1 else n1 + Z.min (Zlen rets) (if r1 <? 9 then 0 else (r1 - 9) / 2 + 1).
+Proof. exact cid_budget_small_seqs. Qed.
+Print Assumptions cid_budget_closed_form.
+
+(* ... and the first frame owed decides between progress and none: room below its declared capacity -> nothing is written
+   and nothing changes; room for it -> at least one frame is written and what is owed shrinks. *)
+Theorem built_send_progress : forall (bs : Builder.st) cl (s : st), owed s <> 0 ->
+  let cap := match unsent (hosts s) with _ :: _ => W_new_connection_id_frame_0_cap | [] => W_retire_connection_id_frame_0_cap end in
+  (room bs < cap -> budget_of bs cl s = 0 /\ owed (snd (send_built bs cl s)) = owed s) /\
+  (cap <= room bs -> 1 <= budget_of bs cl s /\ owed (snd (send_built bs cl s)) < owed s).
+Proof. exact send_built_first_frame. Qed.
+Print Assumptions built_send_progress.
+
+(* the composed model ([breach]: every datagrams_to_send is a BSend whose budget is computed from a builder state; the
+   free-budget Send is excluded) -- retirement_announced, refused_retire_stays_pending and fair_sends_drain re-stated *)
+Theorem retirement_announced_built : forall c l (s : st) q, breach c l s -> In q (recvd s) ->
+  q = cur s \/ In q (avail s) \/ In q (pend s) \/ In q (outs s) \/ In q (ackd s).
+Proof. exact retirement_announced_built_l. Qed.
+Print Assumptions retirement_announced_built.
+
+Theorem refused_retire_stays_pending_built : forall (s : st) (bs : Builder.st) cl,
+  pend s = snd (fst (send_built bs cl s)) ++ pend (snd (send_built bs cl s)) /\
+  outs (snd (send_built bs cl s)) = outs s ++ snd (fst (send_built bs cl s)).
+Proof. exact refused_stays_pending_built. Qed.
+Print Assumptions refused_retire_stays_pending_built.
+
+(* liveness with the derived budget: if every call starts its CID loops with room for k >= 1 frames (k <= floor(room/54)),
+   ceil(owed / k) calls leave no retirement pending and no NEW_CONNECTION_ID owed ... *)
+Theorem fair_sends_drain_built : forall k cl, 1 <= k -> 0 <= cl <= C13Writers.CONNECTION_ID_MAX_SIZE ->
+  forall (bss : list Builder.st) (s : st),
+  closed s = None -> Forall (fun bs => k <= frames_per_room (room bs)) bss -> owed s <= k * Zlen bss ->
+  let s' := brun s (map (fun bs => BSend bs cl) bss) in pend s' = [] /\ unsent (hosts s') = [].
+Proof. exact fair_sends_drain_built_l. Qed.
+Print Assumptions fair_sends_drain_built.
+
+(* ... the 1-RTT packet a fresh builder opens (max_datagram_size >= 1200, no flight / anti-amplification budget below it)
+   is an open-packet state with room = max_datagram_size - 3 - len(peer_cid) - 16 >= 1161, i.e. k = 21 ... *)
+Theorem full_packet_room : forall c pn,
+  SMALLEST_MAX_DATAGRAM_SIZE <= c_mds c -> 0 <= c_peer c <= C13Writers.CONNECTION_ID_MAX_SIZE ->
+  (forall m, c_max_flight c = Some m -> c_mds c <= m) -> (forall m, c_max_total c = Some m -> c_mds c <= m) ->
+  exists bs, fresh_packet c pn = Some bs /\ OI c bs /\
+             room bs = c_mds c - (SHORT_HEADER_FIXED + c_peer c) - AEAD_TAG_SIZE /\ 21 <= frames_per_room (room bs).
+Proof. exact fresh_packet_room. Qed.
+Print Assumptions full_packet_room.
+
+(* ... so with full-size empty packets ceil(owed / 21) calls drain everything. *)
+Theorem full_packets_drain : forall cl (bss : list Builder.st) (s : st),
+  0 <= cl <= C13Writers.CONNECTION_ID_MAX_SIZE -> closed s = None ->
+  Forall (fun bs => exists c pn, SMALLEST_MAX_DATAGRAM_SIZE <= c_mds c /\ 0 <= c_peer c <= C13Writers.CONNECTION_ID_MAX_SIZE /\
+                      (forall m, c_max_flight c = Some m -> c_mds c <= m) /\ (forall m, c_max_total c = Some m -> c_mds c <= m) /\
+                      fresh_packet c pn = Some bs) bss ->
+  owed s <= 21 * Zlen bss ->
+  let s' := brun s (map (fun bs => BSend bs cl) bss) in pend s' = [] /\ unsent (hosts s') = [].
+Proof. exact full_packets_drain_l. Qed.
+Print Assumptions full_packets_drain.
+
+(* ====================================================================================================================
+   d18 -- global bounds (proofs/CidBounds.v), for ALL op sequences and builder budgets ([reach]) *)
+
+(* _host_cid_seq counts the connection IDs ever created: it equals IDs held + IDs the peer retired = min(8, limit) +
+   retired; _host_cids is strictly increasing and below it (sequence numbers are never reused). *)
+Theorem host_seq_counts : forall c l (s : st), 1 <= l -> reach c l s ->
+  hseq s = Zlen (hosts s) + Zlen (retiredev s) /\ hseq s = Z.min REPLENISH_CAP l + Zlen (retiredev s) /\
+  Sorted.StronglySorted Z.lt (hseqs (hosts s)) /\ Forall (fun q => q < hseq s) (hseqs (hosts s)).
+Proof. exact host_seq_counts_l. Qed.
+Print Assumptions host_seq_counts.
+
+Theorem issued_below_seq : forall c l (s : st) q, 1 <= l -> reach c l s -> In q (issued s) -> q < hseq s.
+Proof. exact issued_below_seq_l. Qed.
+Print Assumptions issued_below_seq.
+
+(* ConnectionIdRetired at most once per sequence number, never for an ID still held. *)
+Theorem retired_once : forall c l (s : st), 1 <= l -> reach c l s ->
+  NoDup (retiredev s) /\ forall q, In q (retiredev s) -> has_host q (hosts s) = false /\ q < hseq s.
+Proof. exact retired_once_l. Qed.
+Print Assumptions retired_once.
+
+(* the peer's active_connection_id_limit counted ON THE WIRE: sequence numbers announced (NEW_CONNECTION_ID written, or the
+   initial ID) and not yet retired by a processed RETIRE_CONNECTION_ID are all still held; any duplicate-free list of them
+   has at most min(8, limit) <= limit entries, at every point of every history. *)
+Theorem wire_active_bounded : forall c l (s : st) L, 1 <= l -> reach c l s -> NoDup L ->
+  (forall q, In q L -> In q (issued s) /\ ~ In q (retiredev s)) ->
+  incl L (hseqs (hosts s)) /\ Zlen L <= Z.min REPLENISH_CAP l /\ Zlen L <= l.
+Proof. exact wire_active_bounded_l. Qed.
+Print Assumptions wire_active_bounded.
+
+(* peer-issued IDs: a sequence number is in at most ONE of spare / pending retirement / outstanding RETIRE / acknowledged
+   RETIRE, at most once (no retirement is queued or announced twice), and -- unless closing -- none of them is the
+   current destination ID. *)
+Theorem retire_once : forall c l (s : st), reach c l s ->
+  NoDup (avail s ++ pend s ++ outs s ++ ackd s) /\
+  (closed s = None -> ~ In (cur s) (avail s ++ pend s ++ outs s ++ ackd s)).
+Proof. exact retire_once_l. Qed.
+Print Assumptions retire_once.
+
+(* the global bound on _retire_connection_ids (the code has no cap of its own outside the NEW_CONNECTION_ID handler):
+   spare + pending + outstanding + acknowledged (+ the current ID) <= |_peer_cid_sequence_numbers| <= 1 + number of
+   well-formed NEW_CONNECTION_ID frames processed. *)
+Theorem pending_global_bound : forall c l (s : st), reach c l s ->
+  Zlen (avail s) + Zlen (pend s) + Zlen (outs s) + Zlen (ackd s) + (if closed s then 0 else 1) <= Zlen (seen s) /\
+  Zlen (seen s) <= Zlen (recvd s).
+Proof. exact pending_global_bound_l. Qed.
+Print Assumptions pending_global_bound.
+
+(* _peer_cid_sequence_numbers has no duplicates and grows by at most one entry per NEW_CONNECTION_ID frame; no other
+   operation touches it. *)
+Theorem seen_growth : forall (s : st) o, Zlen (seen (snd (step s o))) <= Zlen (seen s) + 1 /\
+  (match o with RecvNewCid _ _ _ | Handshake _ => True | _ => seen (snd (step s o)) = seen s end).
+Proof. exact seen_growth_l. Qed.
+Print Assumptions seen_growth.
+
+Theorem seen_nodup : forall c l (s : st), reach c l s -> NoDup (seen s).
+Proof. exact seen_nodup_l. Qed.
+Print Assumptions seen_nodup.
+
+(* a NEW_CONNECTION_ID that repeats a known sequence number -- whatever connection ID / stateless reset token it carries --
+   adds no ID (the first one received stays): only its retire_prior_to acts.  RFC 9000 19.15 lets an endpoint treat a
+   conflicting repetition as PROTOCOL_VIOLATION (MAY); the code ignores it silently. *)
+Theorem duplicate_seq_adds_nothing : forall (s : st) q r n, In q (seen s) ->
+  let s' := snd (recv_newcid s q r n) in
+  seen s' = seen s /\ (forall a, In a (avail s') -> In a (avail s)) /\ (cur s' = cur s \/ In (cur s') (avail s)).
+Proof. exact duplicate_seq_adds_nothing_l. Qed.
+Print Assumptions duplicate_seq_adds_nothing.
